@@ -9,12 +9,22 @@ from plain import gen_ops, make_sd
 def gen_control_case(rng, tier, fresh):
     nmax = 5 if tier == "quick" else 6
     r = rng.random()
-    if r < 0.45:
+    if r < 0.2:
+        # an input selects between regimes in which the same motif needs different drivers
+        k = rng.randint(2, 3)
+        vs = [f"v{i}" for i in range(k)]
+        lines = ["s, s"]
+        for v in vs:
+            others = [x for x in vs if x != v]
+            g = common.rand_mono(rng, others, 1)
+            lines.append(f"{v}, ({rng.choice(['s', '!s'])} | {v}) & {g}" if rng.random() < 0.6 else f"{v}, ({rng.choice(['s', '!s'])} & {g}) | ({v} & {g})")
+        bnet = "\n".join(lines)
+    elif r < 0.45:
         bnet = common.g_lattice(rng, rng.randint(3, nmax))
     else:
         bnet = common.g_mixed(rng, nmax=nmax, p_core=0.2)
     prefix = [] if fresh else gen_ops(rng, rng.randint(0, 4), allow_skip=True, allow_unmodelled=True)
-    return {"bnet": bnet, "ops": prefix,
+    return {"bnet": bnet, "ops": prefix, "max_motifs": rng.choice([100000] * 5 + [2, 3]),
             "target": [[rng.randrange(64), rng.randint(0, 1)] for _ in range(rng.randint(1, 3))],
             "target_mode": rng.choice(["trap", "trap", "space"]), "target_pick": rng.randrange(1 << 20),
             "strategy": rng.choice(["internal", "all"]), "bound": rng.choice([None, None, 0, 1, 2, 3]),
